@@ -3,7 +3,7 @@
    with the reference dictionary, and literals are accepted iff strictly increasing.
    Hypotheses: [eqb] decides equality of keys and [ltb] is a strict total order (for the
    comparable Michelson types this is Compare_proofs). *)
-From Coq Require Import List Bool Arith Sorted Lia ZArith.
+From Coq Require Import List Bool Arith Sorted Lia ZArith Permutation.
 From PV Require Import Base.Bytes Base.Result Michelson.Collections.
 Import ListNotations.
 
@@ -551,6 +551,138 @@ Section CollProofs.
           -- injection H as -> -> ->. left. destruct D as [->|D]; [apply ltb_irrefl | apply lt_asym, D].
           -- injection H as -> H. right. apply IH. exists p, a, b, q. split; assumption.
   Qed.
+
+  (* ------------------------------------------------------------ what is assumed of Python's sorted()
+     Only this: on a list whose keys are pairwise distinct it returns a PERMUTATION of its input whose keys
+     are non-descending ([sort_ok]).  For a strict total order that determines the result, so any such
+     function computes what the model's insertion sort computes, at every place the code calls sorted(). *)
+
+  Definition wsorted (l : list K) : Prop := StronglySorted (fun a b => ltb b a = false) l.
+
+  Lemma wsorted_NoDup_SS l : wsorted l -> NoDup l -> SS l.
+  Proof.
+    induction l as [|x l IH]; intros W N; [constructor|].
+    inversion W as [|? ? W' F]; subst. inversion N as [|? ? Nx N']; subst.
+    constructor; [apply IH; assumption|].
+    rewrite Forall_forall in *. intros y Hy. apply not_lt_neq_lt; [apply F, Hy|].
+    intros ->. contradiction.
+  Qed.
+
+  Lemma keyed_canonical {A} (key : A -> K) (a : list A) : forall b,
+    SS (map key a) -> SS (map key b) -> (forall x, In x a <-> In x b) -> a = b.
+  Proof.
+    induction a as [|x a IH]; intros [|y b] Sa Sb E.
+    - reflexivity.
+    - exfalso. apply (E y). left. reflexivity.
+    - exfalso. apply (E x). left. reflexivity.
+    - simpl in Sa, Sb. apply SS_inv in Sa. destruct Sa as [Sa Fa]. apply SS_inv in Sb. destruct Sb as [Sb Fb].
+      rewrite Forall_forall in Fa, Fb.
+      assert (x = y).
+      { destruct (proj1 (E x) (or_introl eq_refl)) as [->|I1]; [reflexivity|].
+        destruct (proj2 (E y) (or_introl eq_refl)) as [->|I2]; [reflexivity|].
+        pose proof (Fb _ (in_map key _ _ I1)) as L1. pose proof (Fa _ (in_map key _ _ I2)) as L2.
+        apply lt_asym in L1. congruence. }
+      subst y. f_equal. apply IH; try assumption.
+      intro z. split; intro I.
+      + destruct (proj1 (E z) (or_intror I)) as [<-|J]; [|exact J].
+        pose proof (Fa _ (in_map key _ _ I)) as L. apply lt_neq in L. congruence.
+      + destruct (proj2 (E z) (or_intror I)) as [<-|J]; [|exact J].
+        pose proof (Fb _ (in_map key _ _ I)) as L. apply lt_neq in L. congruence.
+  Qed.
+
+  (* uniqueness of the sorted permutation *)
+  Lemma sorted_perm_unique {A} (key : A -> K) (l l' : list A) :
+    NoDup (map key l) -> Permutation l' l -> wsorted (map key l') -> l' = sorted_by ltb key l.
+  Proof.
+    intros N P W. apply (keyed_canonical key).
+    - apply wsorted_NoDup_SS; [exact W|].
+      apply (Permutation_NoDup (l := map key l)); [apply Permutation_map, Permutation_sym, P | exact N].
+    - apply sorted_by_SS, N.
+    - intro x. rewrite sorted_by_In. split; intro I.
+      + apply (Permutation_in x P), I.
+      + apply (Permutation_in x (Permutation_sym P)), I.
+  Qed.
+
+  Section AnySort.
+    Variable srt : forall A : Type, (A -> K) -> list A -> list A.
+    Hypothesis sort_ok : forall A (key : A -> K) l, NoDup (map key l) ->
+      Permutation (srt A key l) l /\ wsorted (map key (srt A key l)).
+
+    Lemma srt_is_sorted_by {A} (key : A -> K) l : NoDup (map key l) -> srt A key l = sorted_by ltb key l.
+    Proof. intro N. destruct (sort_ok A key l N) as [P W]. apply sorted_perm_unique; assumption. Qed.
+
+    (* the operations of set.py / map.py written with the assumed sorted() *)
+    Definition check_g (ks : list K) : bool := nodupb eqb ks && list_eqb eqb ks (srt K (fun x => x) ks).
+    Definition set_add_g (x : K) (s : list K) : list K :=
+      if set_contains eqb x s then s else srt K (fun y => y) (x :: s).
+    Definition set_step_g (s : list K) (op : set_op K) : list K :=
+      match op with
+      | SUpdate x b => if b then set_add_g x s else set_remove eqb x s
+      | SLiteral l => if check_g l then l else s
+      end.
+    Definition map_update_g (k : K) (vo : option V) (m : list (K * V)) : option V * list (K * V) :=
+      let prev := map_get eqb k m in
+      (prev,
+       match prev, vo with
+       | Some _, Some v => map (fun kv => (fst kv, if negb (eqb (fst kv) k) then snd kv else v)) m
+       | Some _, None => filter (fun kv => negb (eqb (fst kv) k)) m
+       | None, Some v => srt (K * V) fst (m ++ [(k, v)])
+       | None, None => m
+       end).
+    Definition map_step_g (m : list (K * V)) (op : map_op K V) : list (K * V) :=
+      match op with
+      | MUpdate k vo => snd (map_update_g k vo m)
+      | MGetAndUpdate k vo => snd (map_update_g k vo m)
+      | MMap f => match m with
+                  | [] => m
+                  | _ => let m' := map (fun kv => (fst kv, f (fst kv) (snd kv))) m in if check_g (keys m') then m' else m
+                  end
+      | MLiteral l => if check_g (keys l) then l else m
+      end.
+
+    Lemma check_g_eq ks : check_g ks = check_constraints eqb ltb ks.
+    Proof.
+      unfold check_g, check_constraints, py_sorted. destruct (nodupb eqb ks) eqn:N; [|reflexivity].
+      apply nodupb_spec in N. rewrite srt_is_sorted_by by (rewrite map_id; exact N). reflexivity.
+    Qed.
+
+    Lemma set_step_g_eq s op : SS s -> set_step_g s op = set_step eqb ltb s op.
+    Proof.
+      intro S. destruct op as [x b|l]; simpl.
+      - destruct b; [|reflexivity]. unfold set_update, set_add_g, set_add, py_sorted.
+        destruct (set_contains eqb x s) eqn:C; [reflexivity|].
+        apply srt_is_sorted_by. rewrite map_id. constructor; [|apply SS_NoDup, S].
+        intro I. apply contains_In in I. congruence.
+      - unfold set_literal. rewrite check_g_eq. destruct (check_constraints eqb ltb l); reflexivity.
+    Qed.
+
+    Lemma set_run_g_eq ops : fold_left set_step_g ops [] = set_run eqb ltb ops.
+    Proof.
+      unfold set_run. assert (S0 : SS []) by constructor. revert S0. generalize (@nil K).
+      induction ops as [|o ops IH]; intros s S; simpl; [reflexivity|].
+      rewrite set_step_g_eq by exact S. apply IH, set_step_SS, S.
+    Qed.
+
+    Lemma map_step_g_eq (m : list (K * V)) op : SS (keys m) -> map_step_g m op = map_step eqb ltb m op.
+    Proof.
+      intro S.
+      assert (U : forall k vo, map_update_g k vo m = map_update eqb ltb k vo m).
+      { intros k vo. unfold map_update_g, map_update. destruct (map_get eqb k m) eqn:G; [reflexivity|].
+        destruct vo as [v|]; [|reflexivity]. f_equal. apply srt_is_sorted_by.
+        rewrite map_app. simpl. apply NoDup_snoc; [apply SS_NoDup, S | apply map_get_None, G]. }
+      destruct op as [k vo|k vo|f|l]; cbn [map_step_g map_step]; rewrite ?U; try reflexivity.
+      - unfold map_map, map_literal. destruct m as [|kv m]; [reflexivity|]. rewrite check_g_eq.
+        destruct (check_constraints eqb ltb _); reflexivity.
+      - unfold map_literal. rewrite check_g_eq. destruct (check_constraints eqb ltb (keys l)); reflexivity.
+    Qed.
+
+    Lemma map_run_g_eq (ops : list (map_op K V)) : fold_left map_step_g ops [] = map_run eqb ltb ops.
+    Proof.
+      unfold map_run. assert (S0 : SS (keys (@nil (K * V)))) by constructor. revert S0. generalize (@nil (K * V)).
+      induction ops as [|o ops IH]; intros m S; simpl; [reflexivity|].
+      rewrite map_step_g_eq by exact S. apply IH, map_step_SS, S.
+    Qed.
+  End AnySort.
 
   (* ------------------------------------------------------------ instruction-level scripts *)
 
